@@ -19,8 +19,32 @@ RULE = ("blueprints of whole-sample segments with 1-3 waituntil segments (also i
         "non-trivial = a successful forge containing a waituntil")
 
 
+def siblings_case(g):
+    """numbered siblings in front of a waituntil, all edited at once through the element (replaceeverywhere): whether the
+    wait is overrun is decided by the sum of ALL the new durations"""
+    r = g.r
+    SR = r.choice([10, 100, 1e3, 1e6])
+    na, pad = r.randint(3, 10), r.randint(4, 12)
+    nsib = r.randint(2, 3)
+    T = nsib * na + pad
+    ops = [{"op": "bp.new", "id": "b"}]
+    for _ in range(nsib):
+        ops.append({"op": "bp.insert", "id": "b", "pos": -1, "fn": "ramp", "args": [enc(0.5), enc(1)], "dur": enc(na / SR), "name": enc("a")})
+    ops += [{"op": "bp.insert", "id": "b", "pos": -1, "fn": "waituntil", "args": [enc(T / SR)], "dur": None, "name": None},
+            {"op": "bp.insert", "id": "b", "pos": -1, "fn": "ramp", "args": [enc(1), enc(0)], "dur": enc(r.randint(2, 9) / SR), "name": enc("b")},
+            {"op": "bp.setSR", "id": "b", "SR": enc(SR)},
+            {"op": "el.new", "id": "es"}, {"op": "el.addBP", "id": "es", "ch": 1, "bp": "b"},
+            {"op": "el.getArrays", "id": "es", "time": True}]
+    for n in r.sample([2, na + 1, (T // nsib) - 1 if (T // nsib) - 1 >= 2 else 2, T // nsib + 2, T], 3):
+        ops += [{"op": "el.changeDur", "id": "es", "ch": 1, "name": r.choice(["a", "a2"]), "dur": enc(n / SR), "all": True},
+                {"op": "el.getArrays", "id": "es", "time": True}, {"op": "el.duration", "id": "es"}, {"op": "el.points", "id": "es"}]
+    return ops
+
+
 def case(g, tier, ci):
     r = g.r
+    if ci % 12 == 5:
+        return siblings_case(g)
     SR = g.sr([1, 7, 100, 2.5, 1e3, 1e6, 1e9, 30, 12345.678])
     ops = [{"op": "bp.new", "id": "b"}]
     k = r.randint(2, 6)
@@ -128,7 +152,8 @@ def post_check(ops, ri, rm):
                 segs.append(["waituntil", None, Fraction(o["args"][0]["q"]) if isinstance(o["args"][0], dict) else Fraction(o["args"][0])])
             else:
                 d = o["dur"]
-                segs.append([fn, Fraction(d["q"]) if isinstance(d, dict) else Fraction(d), None])
+                nm = o["name"]["s"] if isinstance(o.get("name"), dict) and o["name"].get("s") else fn
+                segs.append([nm, Fraction(d["q"]) if isinstance(d, dict) else Fraction(d), None])
         elif o["op"] == "bp.setSR":
             v = o["SR"]
             SR = Fraction(v["q"]) if isinstance(v, dict) else Fraction(v)
@@ -136,7 +161,9 @@ def post_check(ops, ri, rm):
             names = canonical_names([basename(s[0]) for s in segs])
             if o["name"] in names:
                 d = o["dur"]
-                segs[names.index(o["name"])][1] = Fraction(d["q"]) if isinstance(d, dict) else Fraction(d)
+                for j, nmj in enumerate(names):
+                    if nmj == o["name"] or (o.get("all") and basename(nmj) == basename(o["name"])):
+                        segs[j][1] = Fraction(d["q"]) if isinstance(d, dict) else Fraction(d)
         elif o["op"] == "el.getArrays" and "ok" in r and SR is not None:
             arr = r["ok"][1]
             counts = np.rint(arr["newdurations"] * float(SR)).astype(int)
